@@ -3,6 +3,7 @@
 package iters
 
 import (
+	"fmt"
 	"github.com/emirpasic/gods/v2/lists/arraylist"
 	"github.com/emirpasic/gods/v2/lists/doublylinkedlist"
 	"github.com/emirpasic/gods/v2/lists/singlylinkedlist"
@@ -21,8 +22,11 @@ import (
 	"github.com/emirpasic/gods/v2/trees/binaryheap"
 	"github.com/emirpasic/gods/v2/trees/btree"
 	"github.com/emirpasic/gods/v2/trees/redblacktree"
+	"strconv"
+	"strings"
 
 	"verif/harness/internal/dom"
+	"verif/harness/internal/via"
 )
 
 // Kinds lists the 18 iterator-bearing containers.
@@ -65,6 +69,7 @@ type Spec struct {
 	Adds  []int  `json:"adds"`            // values / keys inserted first
 	Rems  []int  `json:"rems,omitempty"`  // then: removed keys/values, removal indices, or (stacks, queues, heaps) pop once per entry and push the entry afterwards
 	At    *int   `json:"at,omitempty"`    // red-black tree only: start the iterator with IteratorAt(GetNode(key)) when the key is present
+	Front []int  `json:"front,omitempty"` // the three lists only: Insert(0, Front...) after Adds (several values spliced in front of a non-empty list)
 }
 
 type fwd interface {
@@ -103,6 +108,9 @@ type Container struct {
 	Start func() int
 	// Mutate applies further insertions and removals (same meaning as Spec.Adds / Spec.Rems).
 	Mutate func(adds, rems []int)
+	// Load replaces the content through FromJSON / UnmarshalJSON / json.Unmarshal: the
+	// array of the keys, or — keyed kinds — the object {key: val(key)}.
+	Load func(keys []int) error
 }
 
 func mkCursor(it any) Cursor {
@@ -152,11 +160,17 @@ func Build(s Spec) Container {
 	type list interface {
 		Add(...int)
 		Remove(int)
+		Insert(int, ...int)
 		Size() int
 		Values() []int
 	}
+	frontDone := false
 	buildList := func(l list, adds, rems []int) {
 		l.Add(adds...)
+		if !frontDone && len(s.Front) > 0 {
+			frontDone = true
+			l.Insert(0, s.Front...)
+		}
 		for _, r := range rems {
 			if l.Size() > 0 {
 				l.Remove(mod(r, l.Size()))
@@ -307,5 +321,29 @@ func Build(s Spec) Container {
 		c.Start = func() int { return -1 }
 	}
 	c.Mutate(s.Adds, s.Rems)
+	keyed := Keyed(s.Kind)
+	obj := c.Obj.(via.In)
+	c.Load = func(keys []int) error {
+		var sb strings.Builder
+		seen := map[int]bool{}
+		for _, k := range keys {
+			if keyed && seen[k] {
+				continue
+			}
+			seen[k] = true
+			if sb.Len() > 0 {
+				sb.WriteByte(',')
+			}
+			if keyed {
+				fmt.Fprintf(&sb, "%q:%d", strconv.Itoa(k), val(k))
+			} else {
+				fmt.Fprintf(&sb, "%d", k)
+			}
+		}
+		if keyed {
+			return via.Auto(obj, []byte("{"+sb.String()+"}"))
+		}
+		return via.Auto(obj, []byte("["+sb.String()+"]"))
+	}
 	return c
 }
